@@ -6,7 +6,7 @@ import json
 import os
 import sys
 
-ENGINE = {"C01", "C02", "C03", "C05", "C06", "C09", "C10", "C14", "C15", "C17"}
+ENGINE = {"C01", "C02", "C03", "C05", "C06", "C09", "C10", "C11", "C14", "C15", "C17", "C18"}
 
 
 def main() -> int:
